@@ -7,6 +7,7 @@ import (
 	"sort"
 	"strconv"
 	"strings"
+	"sync"
 	"time"
 )
 
@@ -143,6 +144,7 @@ func NewUnits(baseUnit *UnitDefinition, multipliers map[int64]*UnitDefinition) *
 type UnitsDefinition struct {
 	BaseUnitValue          *UnitDefinition           `json:"base_unit"`
 	MultipliersValue       map[int64]*UnitDefinition `json:"multipliers"`
+	cacheMutex             sync.Mutex                // Guards the lazily built caches below; unit definitions are shared globals.
 	sortedMultipliersCache []int64
 	reCache                *regexp.Regexp
 	reSubExpNames          map[string]int
@@ -221,6 +223,13 @@ func (u *UnitsDefinition) FormatLongFloat(data float64) string {
 }
 
 func (u *UnitsDefinition) getSortedMultipliersCache() []int64 {
+	u.cacheMutex.Lock()
+	defer u.cacheMutex.Unlock()
+	return u.getSortedMultipliersCacheLocked()
+}
+
+// getSortedMultipliersCacheLocked requires cacheMutex to be held by the caller.
+func (u *UnitsDefinition) getSortedMultipliersCacheLocked() []int64 {
 	if u.sortedMultipliersCache == nil {
 		var multipliers []int64
 		for multiplier := range u.MultipliersValue {
@@ -241,10 +250,14 @@ func (u *UnitsDefinition) parse(data string) (any, error) {
 			Message: "Empty string cannot be parsed as " + u.BaseUnitValue.NameLongPlural(),
 		}
 	}
+	u.cacheMutex.Lock()
 	if u.reCache == nil {
 		u.updateReCache()
 	}
-	match := u.reCache.FindStringSubmatch(data)
+	re := u.reCache
+	reSubExpNames := u.reSubExpNames
+	u.cacheMutex.Unlock()
+	match := re.FindStringSubmatch(data)
 	if match == nil {
 		return u.buildUnitParseError(data)
 	}
@@ -254,7 +267,7 @@ func (u *UnitsDefinition) parse(data string) (any, error) {
 	var intNumber int64
 	var err error
 	for _, multiplier := range u.getSortedMultipliersCache() {
-		matchGroupID := u.reSubExpNames[fmt.Sprintf("g%d", multiplier)]
+		matchGroupID := reSubExpNames[fmt.Sprintf("g%d", multiplier)]
 		result := match[matchGroupID]
 
 		intNumber, floatNumber, isFloat, err = u.handleParseMultiplier(
@@ -268,7 +281,7 @@ func (u *UnitsDefinition) parse(data string) (any, error) {
 			return 0, err
 		}
 	}
-	baseMatchGroup := match[u.reSubExpNames["g1"]]
+	baseMatchGroup := match[reSubExpNames["g1"]]
 	intNumber, floatNumber, isFloat, err = u.handleParseMultiplier(
 		baseMatchGroup,
 		1,
@@ -330,10 +343,11 @@ func (u *UnitsDefinition) handleParseMultiplier(
 	return intNumber, floatNumber, isFloat, nil
 }
 
+// updateReCache requires cacheMutex to be held by the caller.
 func (u *UnitsDefinition) updateReCache() {
 	var parts []string
 	if u.MultipliersValue != nil {
-		for _, multiplier := range u.getSortedMultipliersCache() {
+		for _, multiplier := range u.getSortedMultipliersCacheLocked() {
 			unit := u.MultipliersValue[multiplier]
 			parts = append(parts, fmt.Sprintf(
 				"(?:|(?P<g%s>[0-9]+)\\s*(%s|%s|%s|%s))",
@@ -353,11 +367,13 @@ func (u *UnitsDefinition) updateReCache() {
 		regexp.QuoteMeta(u.BaseUnitValue.NameLongPlural()),
 	))
 	regex := "^\\s*" + strings.Join(parts, "\\s*") + "\\s*$"
-	u.reCache = regexp.MustCompile(regex)
-	u.reSubExpNames = map[string]int{}
-	for i, subExpName := range u.reCache.SubexpNames() {
-		u.reSubExpNames[subExpName] = i
+	re := regexp.MustCompile(regex)
+	reSubExpNames := map[string]int{}
+	for i, subExpName := range re.SubexpNames() {
+		reSubExpNames[subExpName] = i
 	}
+	u.reSubExpNames = reSubExpNames
+	u.reCache = re
 }
 
 func (u *UnitsDefinition) buildUnitParseError(data string) (any, error) {
